@@ -2,6 +2,7 @@ package c13
 
 import (
 	"fmt"
+	"hash/fnv"
 	"sync"
 	"testing"
 
@@ -22,6 +23,8 @@ type concHashCase struct {
 	Goroutines int    `json:"goroutines"`
 	PerG       int    `json:"per_goroutine"`
 	KeyLen     int    `json:"key_len"`
+	// CustomHasher (Hash, ReferenceHash): the balancer is given an FNV-1a hasher of the user's instead of its pooled ones
+	CustomHasher bool `json:"custom_hasher,omitempty"`
 }
 
 func init() { ev.Register("conc-hash", func(tb ev.TB, c concHashCase) { runConcHash(tb, c) }) }
@@ -49,6 +52,15 @@ func runConcHash(tb ev.TB, c concHashCase) {
 		tb.Fatalf("harness: unknown balancer %q", c.Balancer)
 	}
 	bal := newBalancer(b)
+	if c.CustomHasher {
+		// a Hasher given by the user is one object shared by every call (the balancer serialises its use)
+		switch b {
+		case bHash:
+			bal = &kafka.Hash{Hasher: fnv.New32a()}
+		case bRefHash:
+			bal = &kafka.ReferenceHash{Hasher: fnv.New32a()}
+		}
+	}
 	ps := parts(c.N)
 	type miss struct {
 		g, i, got, want int
@@ -92,6 +104,9 @@ func TestConcurrentHash(t *testing.T) {
 			Goroutines: rapid.SampledFrom([]int{2, 4, 8, 16}).Draw(t, "goroutines"),
 			PerG:       rapid.SampledFrom([]int{100, 500, 2000}).Draw(t, "perG"),
 			KeyLen:     rapid.SampledFrom([]int{1, 8, 64, 300, 1024}).Draw(t, "keyLen"),
+		}
+		if c.Balancer == "Hash" || c.Balancer == "ReferenceHash" {
+			c.CustomHasher = rapid.Bool().Draw(t, "customHasher")
 		}
 		runConcHash(t, c)
 		ev.Case(fmt.Sprintf("conc-hash/%+v", c), true, "concurrent_hash", "conc_"+c.Balancer)
